@@ -200,6 +200,9 @@ SPECS['C05'] = dict(
                  'H = job limit else pool limit; TERM then KILL if it lingers; nothing before; late result ignored; pool restored and '
                  'serves a later job', timeout=(300, 1500)), 8)
         + parts(twin('hard-limit', 'harness.c05', 'h_hard_twin', 'a run reaching the expiry branch exists'), 8)
+        + [ch('two-jobs-callback-preemption', 'harness.c05b', 'h_two_jobs', 'two jobs past their limit; the timed-out job\'s timeout callback (user code inside the scan) lets the '
+              'result handler process the other job\'s pending result: that job keeps its result and its worker is not signalled', timeout=(300, 1500)),
+           twin('two-jobs-callback-preemption', 'harness.c05b', 'h_two_jobs_twin', 'the callback fires in some run')]
         + parts(ch('other-kinds', 'harness.c05', 'h_others', 'map/imap/imap_unordered jobs on a pool with default limits: every scan '
                    'returns, no signal, never timed out, job completes', timeout=(200, 900)), 6)
         + parts(twin('other-kinds', 'harness.c05', 'h_others_twin', 'the scans are reached'), 6)
@@ -431,6 +434,8 @@ SPECS['C19'] = dict(
         ch('wait', 'harness.c19', 'h_wait', 'timed wait returns None without reaping when the child did not end; otherwise the decoded status', timeout=(200, 900), nontrivial_witness=True),
         ch('guards', 'harness.c19', 'h_guards', 'start only once and only by the creator; alive/exitcode None until the end; after join not an active child',
            timeout=(300, 1500), nontrivial_witness=True),
+        ch('wait-deadline', 'harness.c19', 'h_wait_deadline', 'the readiness wait under join(timeout): a non-positive timeout polls once without blocking, the kernel wait is never '
+           'entered without a timeout or with more than was asked', timeout=(300, 1500), nontrivial_witness=True),
         ch('bootstrap', 'harness.c19', 'h_bootstrap', 'return -> 0, exception -> 1, sys.exit(n) -> n, and n survives kernel + decoder for 0..255', timeout=(300, 1500), nontrivial_witness=True),
     ],
 )
@@ -568,6 +573,8 @@ SPECS['C08'] = dict(
                    'before the call unchanged, queues closed, second terminate() and the finalizer are no-ops', timeout=(400, 1800)), 8)
         + parts(twin('terminate', 'harness.c07', 'h_terminate_twin', 'a run terminating busy workers exists'), 8)
         + parts(ch('terminate-job', 'harness.c01', 'h_term', 'terminate_job on a busy worker: Terminated for exactly its job', timeout=(300, 1500)), 6)
+        + [ch('after-fork-signal-order', 'harness.c03', 'h_after_fork', 'real Worker.after_fork with a recording signal table: the termination handlers (and the soft-limit '
+              'handler) are installed after the user initializer ran, so they win; parent pipe ends closed', timeout=(300, 1500), nontrivial_witness=True)]
         + [ch('terminate-during-supervision', 'harness.c07', 'h_midtick', 'terminate() issued from on_process_up (while replacements are being started): no further '
               'worker is started, every worker is gone afterwards', timeout=(300, 1500), env={'VERIF_PART': '1', 'VERIF_NPART': '2'}),
            ch('terminate-during-supervision/twin', 'harness.c07', 'h_midtick_twin', 'the callback fires in some run', timeout=(120, 600), expect='refuted',
@@ -615,12 +622,16 @@ SPECS['C20'] = dict(
                 'twin object, the server refcount with the number of live proxies, and the referent lifetime with the last release.',
     functions=['billiard.managers.BaseManager.get_server/_create', 'Server.handle_request', 'Server.serve_client', 'Server.create', 'Server.incref', 'Server.decref',
                'Server.number_of_objects', 'BaseProxy.__init__/_connect/_callmethod/_incref/_decref/_getvalue', 'RebuildProxy', 'dispatch', 'convert_to_error'],
-    bounds={'quick': 'one list or dict referent, 2 steps from {method call (3 methods, argument 0..2), copy a proxy, drop a proxy, wrong-key client}', 'thorough': '3 steps'},
+    bounds={'quick': 'one list or dict referent (plus a re-handed-out list and a lock-like referent), 2 steps from {method call (3 methods, argument 0..2), copy a proxy, drop a proxy, wrong-key client}', 'thorough': '3 steps'},
     outside=['sockets and one-thread-per-client atomicity (rests on the GIL)', 'real finaliser timing', 'the other registered types (Namespace, Value, Array, '
              'Lock, Queue ...: same dispatch path, different referents)', 'the challenge-response itself (C18)'],
     assumptions=['deliver_challenge/answer_challenge replaced by key comparison', 'proxies are released explicitly (their finaliser callback is invoked)'],
     trusted_base=TRUST,
     obligations=parts(ch('proxy-history', 'harness.c20', 'h_history', 'proxied calls == local twin (values and exception types), state equal, refcount == live proxies, '
                          'referent kept while proxies exist and disposed after the last, unexposed method refused, wrong key refused', timeout=(400, 1800),
-                         nontrivial_witness=True), 12),
+                         nontrivial_witness=True), 12)
+    + [ch('shared-referent-and-locks', 'harness.c20', 'h_shared_and_locks', 'a typeid whose callable returns an already tracked object: two proxies, one released, the '
+          'other still works and the referent lives until the last is gone; lock-like referent: acquire(blocking, timeout) reaches the referent with exactly '
+          'the caller\'s arguments and returns what the local call returns', timeout=(300, 1500)),
+       twin('shared-referent-and-locks', 'harness.c20', 'h_shared_and_locks_twin', 'the scenarios are reached')],
 )
